@@ -40,7 +40,12 @@ func (in *Interp) unop(instr *ssa.UnOp, x Value) Value {
 		}
 		return mkUint(i.K, ^i.C)
 	case token.ARROW:
-		panic(engineErr("channel receive unsupported"))
+		et := instr.X.Type().Underlying().(*types.Chan).Elem()
+		v, ok := in.chanRecv(x, zero(et))
+		if instr.CommaOk {
+			return Tuple{v, mkBool(ok)}
+		}
+		return v
 	}
 	panic(engineErr(fmt.Sprintf("unop %v on %T", instr.Op, x)))
 }
